@@ -237,8 +237,7 @@ pub fn history(args: &Args) {
     let cmds: Vec<Cmd> = serde_json::from_str(&fs::read_to_string(path).unwrap_or_else(|e| harness_error(&format!("{path}: {e}")))).unwrap_or_else(|e| harness_error(&format!("{path}: {e}")));
     let indices: Vec<usize> = args.get("indices").unwrap_or("").split(',').filter_map(|x| x.parse().ok()).collect();
     let scratch = Mutex::new(Scratch::new("c18h"));
-    use std::io::Write;
-    let stdout = std::io::stdout();
+    let mut proto = crate::Protocol::take_over_stdout();
     for i in indices {
         let cmd = &cmds[i];
         let in_dir = fresh(&scratch, "in");
@@ -258,20 +257,30 @@ pub fn history(args: &Args) {
             ds.push(obs_digest(&scrub(r.sim.stdout, &out_dir), &files));
         }
         let _ = fs::remove_dir_all(&in_dir);
-        let mut o = stdout.lock();
-        writeln!(o, "{}", serde_json::to_string(&HistoryLine { i, ok, d1: ds[0], d2: ds[1] }).unwrap()).unwrap();
-        o.flush().unwrap();
+        if proto.stray_bytes() > 0 {
+            // printed around the hooks: the captured output is not the whole output; this history decides nothing
+            proto.send("{\"stray_stdout\":true}");
+            return;
+        }
+        proto.send(&serde_json::to_string(&HistoryLine { i, ok, d1: ds[0], d2: ds[1] }).unwrap());
     }
 }
 
 /// Parent side: run `indices` of the workload file as one in-process history; returns the lines.
 fn run_history(workload_file: &Path, indices: &[usize]) -> Vec<HistoryLine> {
+    run_history_x(workload_file, indices).0
+}
+
+/// Also says whether the tree printed to stdout around the hooked macros (then the history decides nothing).
+fn run_history_x(workload_file: &Path, indices: &[usize]) -> (Vec<HistoryLine>, bool) {
     let list = indices.iter().map(|i| i.to_string()).collect::<Vec<_>>().join(",");
     let out = std::process::Command::new(std::env::current_exe().unwrap())
         .args(["c18-history", "--workload", workload_file.to_str().unwrap(), "--indices", &list])
         .output()
         .unwrap_or_else(|e| harness_error(&format!("cannot start c18-history: {e}")));
-    String::from_utf8_lossy(&out.stdout).lines().filter_map(|l| serde_json::from_str(l).ok()).collect()
+    let text = String::from_utf8_lossy(&out.stdout).into_owned();
+    let stray = text.lines().any(|l| l.contains("\"stray_stdout\":true"));
+    (text.lines().filter_map(|l| serde_json::from_str(l).ok()).collect(), stray)
 }
 
 #[derive(Default)]
@@ -291,6 +300,7 @@ struct Tally {
     out_bytes: u64,
     base_digests: Vec<(usize, u64)>,
     history_slices: u64,
+    histories_inapplicable: u64,
 }
 
 fn env_fingerprint(e: &Env) -> String {
@@ -526,12 +536,19 @@ pub fn main(args: &Args) {
                     idx.reverse();
                 }
                 let wf = wf.clone();
-                hs.push(std::thread::spawn(move || (idx.clone(), run_history(&wf, &idx))));
+                hs.push(std::thread::spawn(move || {
+                    let (lines, stray) = run_history_x(&wf, &idx);
+                    (idx.clone(), lines, stray)
+                }));
             }
         }
         for h in hs {
-            let (idx, lines) = h.join().unwrap();
+            let (idx, lines, stray) = h.join().unwrap();
             tally.history_slices += 1;
+            if stray {
+                tally.histories_inapplicable += 1;
+                continue;
+            }
             if lines.len() != idx.len() {
                 let at = idx.get(lines.len()).cloned().unwrap_or(0);
                 tally.violations.push(Replay { property: "C18".into(), kind: "same-process".into(), seed, cmd: cmds[at].clone(), env_a: Env::plain(), env_b: Env::plain(), diff: None, note: "the process running this history ended abnormally at this command".into(), history: idx[..lines.len()].iter().map(|i| cmds[*i].clone()).collect() });
@@ -631,6 +648,7 @@ pub fn main(args: &Args) {
             "crash_restart": {"earlier_run_killed_before_the_observed_run": CRASHES.load(Ordering::Relaxed), "of_which_killed_while_still_running": CRASHES_MID_RUN.load(Ordering::Relaxed)},
             "concurrent_same_command_pairs": tally.concurrent_pairs,
             "same_process_repetitions_via_hooks_on_library": tally.inproc_pairs,
+            "histories_skipped_tree_prints_around_the_hooks": tally.histories_inapplicable,
             "fixpoint_side_invariant": {"results_resimplified_unchanged": tally.idempotence_checked, "skipped_result_not_reparsable": tally.idempotence_skipped_unparsable, "wall_budget_s_per_run": TIMEOUT_S, "note": "first sentence of C18 is only asserted on the workload's own formulas; it is not searched"},
             "output_bytes_compared_per_environment": tally.out_bytes,
             "runs_per_hour": (tally.runs as f64 / wall.max(0.001) * 3600.0) as u64,
